@@ -478,7 +478,7 @@ func rulesC09(p *Prog, r *Report) {
 
 	// K3
 	qz := &quantizer{p: p, elemVar: map[ssa.Value]string{}}
-	canonical := regexp.MustCompile(`^(\*?\(\*spdxexp\.node\)\.(license|exception|licenseRef|documentRef|reconstructedLicenseString)\(.*\)|.*\.lic\.(license|exception)|.*\.ref\.(licenseRef|documentRef)|spdxexp\.simplifyLicense\(.*\)|elem\(elem\(elem\(spdxexp/spdxlicenses\.LicenseRanges\(\)\)\)\)|\*local)$`)
+	canonical := regexp.MustCompile(`^(\*?\(\*spdxexp\.node\)\.(license|exception|licenseRef|documentRef|reconstructedLicenseString)\(.*\)|.*\.lic\.(license|exception)|.*\.ref\.(licenseRef|documentRef)|spdxexp\.simplifyLicense\(.*\)|strings\.TrimSuffix\(.*, "-or-later"\)|elem\(elem\(elem\(spdxexp/spdxlicenses\.LicenseRanges\(\)\)\)\)|\*local)$`)
 	n := 0
 	// scope: everything the two pair matchers can reach (static calls and closures), wherever it lives;
 	// the list lookup and its predicate closure compare the caller's spelling by design (K1)
